@@ -44,6 +44,7 @@ func (b *verifBody) Close() error { return nil }
 // verifRT: the fake Atlas endpoint as the base transport under the digest transport.
 // Behaviour of every answer is chosen by the solver (natively: taken from the model).
 type verifRT struct {
+	basic     bool // the challenge asks for Basic authentication (the digest client must refuse it)
 	challenge bool
 	answered  int      // number of non-challenge answers given so far (0: cluster lookup, i: host i-1)
 	reqs      []string // every request seen, in order
@@ -65,7 +66,11 @@ func (t *verifRT) RoundTrip(req *http.Request) (*http.Response, error) {
 	t.reqs = append(t.reqs, req.Method+" "+verifReqURL(req)+" auth="+verifAuthScheme(auth))
 	if t.challenge && auth == "" {
 		h := http.Header{}
-		h.Set("Www-Authenticate", `Digest realm="MMS Public API", domain="", nonce="9c6fbe1dd1f9a0f3", algorithm=MD5, qop="auth", stale=false`)
+		if t.basic {
+			h.Set("Www-Authenticate", `Basic realm="MMS Public API"`)
+		} else {
+			h.Set("Www-Authenticate", `Digest realm="MMS Public API", domain="", nonce="9c6fbe1dd1f9a0f3", algorithm=MD5, qop="auth", stale=false`)
+		}
 		return &http.Response{StatusCode: 401, Header: h, Body: &verifBody{content: "unauthorized"}}, nil
 	}
 	i := t.answered
@@ -105,7 +110,8 @@ func H_atlas() {
 	// identifiers and keys are URL-safe tokens (stated bound; keeps native requests well-formed)
 	verifAssume(verifTokenRe.MatchString(pub) && verifTokenRe.MatchString(priv) && verifTokenRe.MatchString(proj) && verifTokenRe.MatchString(cluster))
 	verifAssume(start >= 0 && end >= 0)
-	rt := &verifRT{challenge: verifChoose("challenge", 2) == 1}
+	ck := verifChoose("challenge", 3) // 0: none, 1: Digest, 2: Basic
+	rt := &verifRT{challenge: ck != 0, basic: ck == 2}
 	client := &AtlasClient{BaseURL: atlasAPIBaseURL, HTTPClient: &http.Client{Transport: rt}}
 	verifCaptureStdio(true)
 	files, err := client.DownloadClusterLogs(context.Background(), pub, priv, proj, cluster, start, end)
@@ -122,7 +128,8 @@ func H_atlas() {
 	if err != nil {
 		verifAssert(!verifLeaks(err.Error(), priv), "private-key-in-error")
 	}
-	if !rt.challenge {
+	if !rt.challenge || rt.basic {
+		// without a digest challenge no credential material is sent at all
 		for i, r := range rt.reqs {
 			verifAssert(strings.HasSuffix(r, " auth=none"), "no-credentials-without-challenge"+verifItoa(i))
 			verifAssert(!verifLeaks(r, pub) || verifLeaks(proj+cluster, pub), "public-key-without-challenge"+verifItoa(i))
